@@ -365,10 +365,12 @@ def gen_args(rng, argnames, info, objname, pools):
                 if rng.random() < 0.1:
                     e = None
             out.extend([s, e, rng.random() < 0.3, rng.random() < 0.5, rng.random() < 0.3])
-        elif a == "pquals":
-            out.append(rng.choice([None, {"gene_id": ["g1"]}, {"note": ["from parent", "alpha"]}, {"locus_tag": ["LT"], "kz": ["1"]}]))
-        elif a == "pquals_sets":
-            out.append({"$": "dictsets", "v": rng.choice([None, {"gene_id": ["g1"]}, {"note": ["from parent", "alpha"]}])})
+        elif a in ("pquals", "pquals_sets"):
+            # the dictionary of sets a gene hands to its children; some keys collide with what the child adds itself
+            v = rng.choice([None, {"gene_id": ["g1"]}, {"note": ["from parent", "alpha"]}, {"locus_tag": ["LT"], "kz": ["1"]},
+                            {"transcript_id": ["from_parent"], "note": ["p1"]}, {"gene_id": ["g_parent"], "product": ["pp"], "protein_id": ["pid_parent"]},
+                            {"transcript_name": ["tn_parent"], "transcript_biotype": ["tb"], "feature_name": ["fn_parent"], "feature_id": ["fid_parent"], "feature_type": ["ft"]}])
+            out.append({"$": "dictsets", "v": v})
         elif a == "gffparent":
             out.append(rng.choice([None, "parent-1"]))
         elif a == "score":
@@ -482,6 +484,7 @@ def _ops_for(kind, workflow):
 class PlanBuilder:
     def __init__(self, rng):
         self.rng = rng
+        self.sliced = []  # roots cut by their sequence chunk
         self.objects = {}
         self.infos = {}
         self.pools = {}
@@ -569,7 +572,7 @@ def _annotation_roots(pb, rng, size):
         names.append(pb.add_root(kind, spec))
     # a stand-alone CDS / transcript on a chunk whose window cuts it (frame bookkeeping across the cut is stateful code)
     coding = [t for gene in coll["genes"] for t in gene["transcripts"] if t.get("cds_starts")]
-    if coding and rng.random() < 0.4:
+    if coding and rng.random() < 0.5:
         t = rng.choice(coding)
         lo, hi = t["cds_starts"][0], t["cds_ends"][-1]
         if hi - lo >= 6:
@@ -578,6 +581,7 @@ def _annotation_roots(pb, rng, size):
             if b > a:
                 cut = {"mode": "chunk", "genome": g, "chunk": [a, b]}
                 names.append(pb.add_root(rng.choice(["cds", "cds", "transcript"]), specs.with_parent(t, cut)))
+                pb.sliced.append(names[-1])
     # near-twin: same collection on another parent description
     if rng.random() < 0.5:
         p2 = specs.gen_parent(rng, g, must_cover=None)
@@ -680,6 +684,10 @@ def gen_plan(rng, check="C10", size=1, max_steps=60, known_avoid=()):
         kinds = sorted({pb.objects[n]["kind"] for n in roots})
         kind = rng.choice(kinds)
         target = rng.choice([n for n in roots if pb.objects[n]["kind"] == kind])
+        if pb.sliced and rng.random() < 0.3:
+            # objects cut by their sequence chunk keep two sets of books (chunk-relative and chromosome): prefer them
+            target = rng.choice(pb.sliced)
+            kind = pb.objects[target]["kind"]
         if kind == "transcript" and rng.random() < 0.5:
             st = pb.call_step(0, target, BY_NAME["transcript"]["cds"], store_p=1.0)
             if st and "store" in st:
